@@ -497,51 +497,56 @@ Definition np_rtol : D := (5902958103587057, -69)%Z.
 Definition dclose (a b : D) : bool :=
   dle (dabs (dsub a b)) (dadd np_atol (dmul np_rtol (dabs b))).
 
-Definition opt_eqb {A} (eqb : A -> A -> bool) := @option_eqb A eqb.
+(** a value that may be NaN ([None]); the generated case files use this
+    type for every array entry *)
+Definition OD := option D.
+Definition odeqb (a b : OD) : bool := option_eqb deqb a b.
+Definition oclose (a b : OD) : bool :=
+  match a, b with Some x, Some y => dclose x y | _, _ => false end.
 
 (** make_xarray_grid *)
-Definition c18_make (ce cn : nd D) (extras : list (arr2 D)) (data : dataarg D)
+Definition c18_make (ce cn : nd OD) (extras : list (arr2 OD)) (data : dataarg OD)
     (data_names : names) (dims : string * string) (extra_names : names)
-    (obs : option (dataset D)) : verdict :=
+    (obs : option (dataset OD)) : verdict :=
   mk_verdict
-    (option_eqb (dataset_eqb deqb) (make_xarray_grid dclose ce cn extras data data_names dims extra_names) obs)
-    (make_holds deqb dclose ce cn extras data data_names dims extra_names obs).
+    (option_eqb (dataset_eqb odeqb) (make_xarray_grid oclose ce cn extras data data_names dims extra_names) obs)
+    (make_holds odeqb oclose ce cn extras data data_names dims extra_names obs).
 
 (** grid_to_table on a grid given as observed from xarray *)
-Definition c18_table (g : grid D) (obs : option (table D)) : verdict :=
-  mk_verdict (option_eqb (table_eqb deqb) (grid_to_table g) obs) (table_holds deqb g obs).
+Definition c18_table (g : grid OD) (obs : option (table OD)) : verdict :=
+  mk_verdict (option_eqb (table_eqb odeqb) (grid_to_table g) obs) (table_holds odeqb g obs).
 
 (** grid_to_table (make_xarray_grid ...) *)
-Definition c18_round (ce cn : nd D) (extras : list (arr2 D)) (data : dataarg D)
+Definition c18_round (ce cn : nd OD) (extras : list (arr2 OD)) (data : dataarg OD)
     (data_names : names) (dims : string * string) (extra_names : names)
-    (obs : option (table D)) : verdict :=
+    (obs : option (table OD)) : verdict :=
   mk_verdict
-    (option_eqb (table_eqb deqb)
-       (match make_xarray_grid dclose ce cn extras data data_names dims extra_names with
+    (option_eqb (table_eqb odeqb)
+       (match make_xarray_grid oclose ce cn extras data data_names dims extra_names with
         | Some ds => grid_to_table (GDataset ds)
         | None => None
         end) obs)
-    (roundtrip_holds deqb dclose ce cn extras data data_names dims extra_names obs).
+    (roundtrip_holds odeqb oclose ce cn extras data data_names dims extra_names obs).
 
 (** meshgrid_to_1d (meshgrid_from_1d (e, n, extras)): [obs1] is the observed
     meshgrid, [obs2] the observed 1-D vectors recovered from it *)
-Definition c18_from_to (e n : list D) (extras : list (arr2 D))
-    (obs1 : option (arr2 D * arr2 D)) (obs2 : option (list D * list D)) : verdict :=
+Definition c18_from_to (e n : list OD) (extras : list (arr2 OD))
+    (obs1 : option (arr2 OD * arr2 OD)) (obs2 : option (list OD * list OD)) : verdict :=
   let pair_eqb {A B} (f : A -> A -> bool) (g : B -> B -> bool) (x y : A * B) :=
       f (fst x) (fst y) && g (snd x) (snd y) in
   let m1 := meshgrid_from_1d e n extras in
-  let m2 := match m1 with Some (E, N) => meshgrid_to_1d dclose E N extras | None => None end in
+  let m2 := match m1 with Some (E, N) => meshgrid_to_1d oclose E N extras | None => None end in
   mk_verdict
-    (option_eqb (pair_eqb (arr_eqb deqb) (arr_eqb deqb)) m1 obs1
-     && option_eqb (pair_eqb (list_eqb deqb) (list_eqb deqb)) m2 obs2)
+    (option_eqb (pair_eqb (arr_eqb odeqb) (arr_eqb odeqb)) m1 obs1
+     && option_eqb (pair_eqb (list_eqb odeqb) (list_eqb odeqb)) m2 obs2)
     (if forallb (rect (length n) (length e)) extras then
        match obs1 with
        | Some (E, N) =>
          rect (length n) (length e) E && rect (length n) (length e) N
-         && axis_e_matches deqb e E && axis_n_matches deqb n N
-         && (if (0 <? length e) && (0 <? length n) then
+         && axis_e_matches odeqb e E && axis_n_matches odeqb n N
+         && (if (0 <? length e) && (0 <? length n) && forallb (fun x => oclose x x) (e ++ n) then
                match obs2 with
-               | Some (e', n') => list_eqb deqb e' e && list_eqb deqb n' n
+               | Some (e', n') => list_eqb odeqb e' e && list_eqb odeqb n' n
                | None => false
                end
              else true)
@@ -550,22 +555,22 @@ Definition c18_from_to (e n : list D) (extras : list (arr2 D))
      else match obs1 with None => true | Some _ => false end).
 
 (** meshgrid_from_1d (meshgrid_to_1d (E, N, extras)) *)
-Definition c18_to_from (E N : arr2 D) (extras : list (arr2 D))
-    (obs1 : option (list D * list D)) (obs2 : option (arr2 D * arr2 D)) : verdict :=
+Definition c18_to_from (E N : arr2 OD) (extras : list (arr2 OD))
+    (obs1 : option (list OD * list OD)) (obs2 : option (arr2 OD * arr2 OD)) : verdict :=
   let pair_eqb {A B} (f : A -> A -> bool) (g : B -> B -> bool) (x y : A * B) :=
       f (fst x) (fst y) && g (snd x) (snd y) in
-  let m1 := meshgrid_to_1d dclose E N extras in
+  let m1 := meshgrid_to_1d oclose E N extras in
   let m2 := match m1 with Some (e, n) => meshgrid_from_1d e n extras | None => None end in
   mk_verdict
-    (option_eqb (pair_eqb (list_eqb deqb) (list_eqb deqb)) m1 obs1
-     && option_eqb (pair_eqb (arr_eqb deqb) (arr_eqb deqb)) m2 obs2)
-    (if coords_valid dclose (A2 E) (A2 N) extras [] then
+    (option_eqb (pair_eqb (list_eqb odeqb) (list_eqb odeqb)) m1 obs1
+     && option_eqb (pair_eqb (arr_eqb odeqb) (arr_eqb odeqb)) m2 obs2)
+    (if coords_valid oclose (A2 E) (A2 N) extras [] then
        match obs1, obs2 with
        | Some (e, n), Some (E', N') =>
-         let cl := if exact_meshgrid_b deqb E N then deqb else dclose in
+         let cl := if exact_meshgrid_b odeqb E N then odeqb else oclose in
          axis_e_matches cl e E && axis_n_matches cl n N
-         && (if exact_meshgrid_b deqb E N then arr_eqb deqb E' E && arr_eqb deqb N' N
-             else axis_e_matches deqb e E' && axis_n_matches deqb n N'
+         && (if exact_meshgrid_b odeqb E N then arr_eqb odeqb E' E && arr_eqb odeqb N' N
+             else axis_e_matches odeqb e E' && axis_n_matches odeqb n N'
                   && rect (length E) (length (first_row E)) E' && rect (length E) (length (first_row E)) N')
        | _, _ => false
        end
